@@ -526,8 +526,10 @@ def glue(msgs, workdir, char_id=None, runner=None, light=False):
             r = run(['query'] + flags + [q, files[0]])
             if ok('query', r):
                 _same(bad, 'query', 'query %s %s' % (' '.join(flags), q), r[0], want_t)
-                if flags == ['-j']:
-                    # the values shown are the flat values under that id, character data one character per byte
+                if flags == ['-j'] and q == char_id:
+                    # the values shown are the flat values under that id, character data one character per byte (stated for the
+                    # character element only: an id that also hangs on other nodes as a virtual attribute - 031021, 008023, class 33 -
+                    # is found once per owner by a bare-id query, which is C16's subject)
                     data = json.loads(r[0])
                     want_v = {str(i): [as_text(v) for d, v in zip(td.decoded_descriptors_all_subsets[i], td.decoded_values_all_subsets[i]) if str(d) == q]
                               for i in range(n)}
